@@ -16,9 +16,24 @@ Definition pow_inv (s : Z * Z * Z) : Prop :=
 Definition pow_post (r : option Z) : Prop := r = Some ((x0 ^ d0) mod M).
 Definition pow_mu (s : Z * Z * Z) : Z := let '(_, _, d) := s in d.
 
+(** second measure: the bit length of d, so the loop makes at most 64 iterations for a u64 *)
+Definition pow_mu2 (s : Z * Z * Z) : Z := let '(_, _, d) := s in if d =? 0 then 0 else Z.log2 d + 1.
+
+Lemma pow_mu2_half d : 0 < d -> 0 <= pow_mu2 (0, 0, d / 2) < pow_mu2 (0, 0, d).
+Proof.
+  intros Hd. cbn [pow_mu2]. replace (d =? 0) with false by (symmetry; apply Z.eqb_neq; lia).
+  pose proof (Z.log2_nonneg d) as Hl. destruct (d / 2 =? 0) eqn:E; [lia|]. apply Z.eqb_neq in E.
+  assert (Hq : 0 < d / 2).
+  { assert (0 <= d / 2) by (apply Z.div_pos; lia). lia. }
+  pose proof (Z.log2_nonneg (d / 2)) as Hl2.
+  pose proof (Z.log2_double (d / 2) Hq) as Hdb.
+  assert (Hle : 2 * (d / 2) <= d) by (apply Z.mul_div_le; lia).
+  pose proof (Z.log2_le_mono _ _ Hle) as Hm. lia.
+Qed.
+
 Lemma pow_step_ok s : pow_inv s ->
   match pow_step M s with
-  | inl s' => pow_inv s' /\ 0 <= pow_mu s' < pow_mu s
+  | inl s' => pow_inv s' /\ 0 <= pow_mu s' < pow_mu s /\ 0 <= pow_mu2 s' < pow_mu2 s
   | inr r => pow_post r
   end.
 Proof.
@@ -37,7 +52,7 @@ Proof.
     { rewrite Z.pow_mul_r by lia. f_equal. lia. }
     destruct (d mod 2 =? 1) eqn:E1.
     + apply Z.eqb_eq in E1. rewrite (mul_correct M HM res a Hres Ha).
-      cbn [pow_inv pow_mu]. split; [|lia].
+      cbn [pow_inv pow_mu]. split; [|split; [lia|apply (pow_mu2_half d Hdpos)]].
       split; [apply Z.mod_pos_bound; lia|]. split; [apply Z.mod_pos_bound; lia|]. split; [lia|].
       assert (Key : a ^ d = a * (a * a) ^ (d / 2)).
       { rewrite Hsq. rewrite Hdm at 1. rewrite E1. rewrite Z.pow_add_r by lia. rewrite Z.pow_1_r. ring. }
@@ -45,7 +60,7 @@ Proof.
       rewrite <- Zpower_mod by lia. rewrite Z.mul_mod_idemp_r by lia.
       rewrite <- Heq. f_equal. rewrite Key. ring.
     + apply Z.eqb_neq in E1.
-      cbn [pow_inv pow_mu]. split; [|lia].
+      cbn [pow_inv pow_mu]. split; [|split; [lia|apply (pow_mu2_half d Hdpos)]].
       split; [exact Hres|]. split; [apply Z.mod_pos_bound; lia|]. split; [lia|].
       assert (Key : a ^ d = (a * a) ^ (d / 2)).
       { rewrite Hsq. rewrite Hdm at 1. replace (d mod 2) with 0 by lia. f_equal. lia. }
@@ -63,8 +78,15 @@ Lemma pow_loop_correct M x d p : 2 <= M < 2 ^ 31 -> 0 <= x < M -> 0 <= d < Zpos 
 Proof.
   intros HM Hx Hd. unfold pow_loop.
   assert (Hd0 : 0 <= d) by lia.
+  assert (Hstep : forall s, pow_inv M x d s ->
+            match pow_step M s with
+            | inl s' => pow_inv M x d s' /\ 0 <= pow_mu s' < pow_mu s
+            | inr r => pow_post M x d r
+            end).
+  { intros s Hs. pose proof (pow_step_ok M HM x d Hx Hd0 s Hs) as Hok.
+    destruct (pow_step M s) as [s'|r]; [tauto|exact Hok]. }
   destruct (iter_pos_spec (pow_step M) (pow_inv M x d) (pow_post M x d) pow_mu
-              (pow_step_ok M HM x d Hx Hd0) p (1, x, d)) as (r & Hr & Hp).
+              Hstep p (1, x, d)) as (r & Hr & Hp).
   - apply pow_init; lia.
   - cbn [pow_mu]. exact Hd.
   - rewrite Hr. unfold pow_post in Hp. rewrite Hp. reflexivity.
@@ -77,4 +99,24 @@ Proof.
   rewrite big_fuel_val. split; [lia|]. apply Z.lt_trans with (2 ^ 64); [lia|]. reflexivity.
 Qed.
 
-(** at most 64 iterations: a fuel of 2^64 > d already suffices *)
+(** at most 65 evaluations of the loop condition (64 iterations plus the exit) for a u64 exponent *)
+Lemma pow_loop_65 M x d : 2 <= M < 2 ^ 31 -> 0 <= x < M -> 0 <= d < 2 ^ 64 ->
+  pow_loop M 65 x d = inr (Some ((x ^ d) mod M)).
+Proof.
+  intros HM Hx Hd. unfold pow_loop.
+  assert (Hd0 : 0 <= d) by lia.
+  assert (Hstep : forall s, pow_inv M x d s ->
+            match pow_step M s with
+            | inl s' => pow_inv M x d s' /\ 0 <= pow_mu2 s' < pow_mu2 s
+            | inr r => pow_post M x d r
+            end).
+  { intros s Hs. pose proof (pow_step_ok M HM x d Hx Hd0 s Hs) as Hok.
+    destruct (pow_step M s) as [s'|r]; [tauto|exact Hok]. }
+  destruct (iter_pos_spec (pow_step M) (pow_inv M x d) (pow_post M x d) pow_mu2
+              Hstep 65%positive (1, x, d)) as (r & Hr & Hp).
+  - apply pow_init; lia.
+  - cbn [pow_mu2]. destruct (d =? 0) eqn:E; [lia|]. apply Z.eqb_neq in E.
+    pose proof (Z.log2_nonneg d) as Hl.
+    assert (Hlt : Z.log2 d < 64) by (apply Z.log2_lt_pow2; lia). lia.
+  - rewrite Hr. unfold pow_post in Hp. rewrite Hp. reflexivity.
+Qed.
